@@ -33,6 +33,10 @@ pub enum DOp {
     RidExt(u8),
     MidExt(u8),
     Clear,
+    /// harness-side: fill listener `l`'s channel to capacity and stop draining it (`try_send` → `Full`)
+    Fill(usize),
+    /// harness-side: drain listener `l`'s channel again
+    Drain(usize),
     Pkt { ssrc: u32, pt: u8, ext: Option<(u16, Vec<u8>)> },
 }
 
@@ -48,6 +52,8 @@ fn dop_text(op: &DOp) -> String {
         DOp::RidExt(i) => format!("er,{i}"),
         DOp::MidExt(i) => format!("em,{i}"),
         DOp::Clear => "c".into(),
+        DOp::Fill(l) => format!("f,{l}"),
+        DOp::Drain(l) => format!("u,{l}"),
         DOp::Pkt { ssrc, pt, ext } => match ext {
             None => format!("k,{ssrc},{pt},-,-"),
             Some((p, d)) => format!("k,{ssrc},{pt},{p},{}", hex(d)),
@@ -56,6 +62,25 @@ fn dop_text(op: &DOp) -> String {
 }
 
 pub const NL: usize = 4;
+
+/// op line of a case: a packet that arrives while some listener channels are full carries their list (an INPUT of the model)
+fn case_text(ops: &[DOp]) -> String {
+    let mut filled = [false; NL];
+    let mut out = vec![];
+    for op in ops {
+        match op {
+            DOp::Fill(l) => filled[*l] = true,
+            DOp::Drain(l) => filled[*l] = false,
+            _ => {}
+        }
+        let mut t = dop_text(op);
+        if let DOp::Pkt { .. } = op { if filled.iter().any(|f| *f) {
+            t.push_str(&format!(",{}", (0..NL).filter(|l| filled[*l]).map(|l| l.to_string()).collect::<Vec<_>>().join(".")));
+        } }
+        out.push(t);
+    }
+    out.join(" ")
+}
 
 fn snap_text(s: &VerifRegistrySnapshot) -> String {
     let a: Vec<String> = s.by_ssrc.iter().map(|(k, v)| format!("{k}:{v}")).collect();
@@ -130,7 +155,7 @@ pub async fn dexec(ops: &[DOp]) -> DOut {
     let tr = RtpTransport::new(conn, false);
     let mut txs = vec![];
     let mut rxs: Vec<Option<mpsc::Receiver<Chan>>> = vec![];
-    for _ in 0..NL { let (t, r) = mpsc::channel::<Chan>(64); txs.push(t); rxs.push(Some(r)); }
+    for _ in 0..NL { let (t, r) = mpsc::channel::<Chan>(2); txs.push(t); rxs.push(Some(r)); }
     let addr: SocketAddr = "127.0.0.1:4000".parse().unwrap();
     let mut mb = Vec::new();
     let mut lines = vec![];
@@ -150,12 +175,14 @@ pub async fn dexec(ops: &[DOp]) -> DOut {
     // SSRC → (receiver, by which extension) its most recent extension-carrying packet was identified AND delivered to; forgotten on
     // any re-registration of that SSRC, clear_listeners, the receiver closing, or an extension-carrying packet that was not so delivered
     let mut identified: BTreeMap<u32, (usize, &'static str)> = BTreeMap::new();
+    let mut filled = [false; NL];   // channels the harness has filled to capacity and does not drain
+    let mut has_rid = [false; NL];  // listeners that registered a RID (layer listeners when they have no MID of their own)
     let mut seq = 0u16;
     for (i, op) in ops.iter().enumerate() {
         let mut res = "-".to_string();
         match op {
             DOp::Ssrc(s, l) => { tr.register_listener_sync(*s, txs[*l].clone()); registered[*l] = true; cleared_since[*l] = false; ssrc_owner.insert(*s, *l); identified.remove(s); }
-            DOp::Rid(r, l) => { tr.register_rid_listener(r.clone(), txs[*l].clone()); registered[*l] = true; cleared_since[*l] = false; rid_owner.insert(r.clone(), *l); }
+            DOp::Rid(r, l) => { tr.register_rid_listener(r.clone(), txs[*l].clone()); registered[*l] = true; cleared_since[*l] = false; rid_owner.insert(r.clone(), *l); has_rid[*l] = true; }
             DOp::Mid(m, l) => { tr.register_mid_listener(m.clone(), txs[*l].clone()); registered[*l] = true; cleared_since[*l] = false; section[*l] = Some(m.clone()); mid_owner.insert(m.clone(), *l); }
             DOp::Pts(p, l) => { tr.register_payload_list_listener(p.clone(), txs[*l].clone()); registered[*l] = true; cleared_since[*l] = false; pts_of[*l] = p.clone(); }
             DOp::Pt(p, l) => { tr.register_pt_listener(*p, txs[*l].clone()); registered[*l] = true; cleared_since[*l] = false; pts_of[*l].push(*p); }
@@ -163,7 +190,22 @@ pub async fn dexec(ops: &[DOp]) -> DOut {
             DOp::Close(l) => { rxs[*l] = None; identified.retain(|_, v| v.0 != *l); }
             DOp::RidExt(x) => { tr.set_rid_extension_id(if *x == 0 { None } else { Some(*x) }); rid_ext = *x; }
             DOp::MidExt(x) => { tr.set_sdes_mid_extension_id(if *x == 0 { None } else { Some(*x) }); mid_ext = *x; }
-            DOp::Clear => { res = format!("n{}", tr.clear_listeners()); cleared_since = [true; NL]; rid_owner.clear(); mid_owner.clear(); section = Default::default(); pts_of = Default::default(); prov_of = [false; NL]; ssrc_owner.clear(); identified.clear(); }
+            DOp::Clear => { res = format!("n{}", tr.clear_listeners()); cleared_since = [true; NL]; rid_owner.clear(); mid_owner.clear(); section = Default::default(); pts_of = Default::default(); prov_of = [false; NL]; ssrc_owner.clear(); identified.clear(); has_rid = [false; NL]; }
+            DOp::Fill(l) => {
+                if !filled[*l] {
+                    let dummy = || (RtpPacket::new(RtpHeader::new(0, 0, 0, 0), vec![0xfe, 0xfe, 0xfe]), addr);
+                    while txs[*l].try_send(dummy()).is_ok() {}
+                    filled[*l] = true;
+                }
+            }
+            DOp::Drain(l) => {
+                if filled[*l] {
+                    if let Some(rx) = rxs[*l].as_mut() { while let Ok((p, _)) = rx.try_recv() {
+                        if p.payload.as_ref() != [0xfe, 0xfe, 0xfe] { fails.push(("demux:packet-queued-on-full-channel".into(), format!("step {i}: listener {l}"))); }
+                    } }
+                    filled[*l] = false;
+                }
+            }
             DOp::Pkt { ssrc, pt, ext } => {
                 seq = seq.wrapping_add(1);
                 let pre = tr.verif_registry_snapshot(&txs);
@@ -172,7 +214,7 @@ pub async fn dexec(ops: &[DOp]) -> DOut {
                 let bytes = RtpPacket::new(h, vec![i as u8, 0xab]).marshal().unwrap();
                 tr.receive(Bytes::from(bytes), addr, &mut mb).await;
                 let mut got = vec![];
-                for l in 0..NL { if let Some(rx) = rxs[l].as_mut() { while let Ok((p, _)) = rx.try_recv() { got.push((l, p)); } } }
+                for l in 0..NL { if filled[l] { continue; } if let Some(rx) = rxs[l].as_mut() { while let Ok((p, _)) = rx.try_recv() { got.push((l, p)); } } }
                 res = match got.len() { 0 => "0".into(), 1 => format!("d{}", got[0].0), n => format!("multi{n}") };
                 // ---- property oracle (written from the property text and RFC 8843/8285, not from the code)
                 if got.len() > 1 { fails.push(("demux:delivered-to-more-than-one".into(), format!("step {i}: {:?}", got.iter().map(|g| g.0).collect::<Vec<_>>()))); }
@@ -185,12 +227,22 @@ pub async fn dexec(ops: &[DOp]) -> DOut {
                 let post = tr.verif_registry_snapshot(&txs);
                 for (s, l) in post.by_ssrc.iter().filter(|e| !pre.by_ssrc.contains(e)) {
                     let routed = *l < NL && (rid_named == Some(*l) || live_mid_owner == Some(*l) || pts_of[*l].contains(pt));
-                    if *s != *ssrc || got.len() != 1 || got[0].0 != *l { fails.push(("bind:ssrc-bound-to-other-than-receiver".into(), format!("step {i}: {s}->{l}"))); }
+                    let to_receiver = (got.len() == 1 && got[0].0 == *l) || (got.is_empty() && *l < NL && filled[*l] && rxs[*l].is_some()); // selected, lost only to a full channel
+                    if *s != *ssrc || !to_receiver { fails.push(("bind:ssrc-bound-to-other-than-receiver".into(), format!("step {i}: {s}->{l}"))); }
                     else if !routed { fails.push(("bind:ssrc-learnt-from-unrouted-packet".into(), format!("step {i}: {s}->{l} learnt from a packet routed by SSRC/provisional fallback"))); }
                 }
+                // a full channel costs the packet, never a registration: "… the one identified by SSRC" must keep holding for the
+                // packets that follow, so an OPEN listener whose channel is merely full keeps every map entry and route
+                for l in 0..NL { if filled[l] && rxs[l].is_some() {
+                    let lost = pre.by_ssrc.iter().any(|e| e.1 == l && e.0 != *ssrc && !post.by_ssrc.contains(e))
+                        || pre.by_rid.iter().any(|e| e.1 == l && !post.by_rid.contains(e))
+                        || pre.by_mid.iter().any(|e| e.1 == l && !post.by_mid.contains(e))
+                        || pre.routes.iter().any(|rt| rt.2 == l && !post.routes.iter().any(|q| q.2 == l && q.0 == rt.0));
+                    if lost { fails.push(("demux:full-channel-unregisters-open-listener".into(), format!("step {i}: listener {l}'s channel is full (open); registry before {} after {}", snap_text(&pre), snap_text(&post)))); }
+                } }
                 // ghost: listeners 2 and 3 stand for simulcast-layer listeners of receivers 0 and 1 (separate channels
                 // that never register a MID themselves, as in peer_connection.rs); their media section is their parent's
-                let section_of = |l: usize| -> Option<String> { section[l].clone().or_else(|| if l >= 2 { section[l - 2].clone() } else { None }) };
+                let section_of = |l: usize| -> Option<String> { section[l].clone().or_else(|| if l >= 2 && has_rid[l] { section[l - 2].clone() } else { None }) };
                 // "the one identified by its RID or MID header extension, else by SSRC … dropped rather than handed to a receiver of
                 // another media section": once a packet of an SSRC has been identified by extension as receiver B's, a later
                 // extension-less packet of that SSRC is B's stream too — it must not be handed to a receiver of another section
@@ -212,7 +264,7 @@ pub async fn dexec(ops: &[DOp]) -> DOut {
                 if rid_val.is_none() && mid_val.is_none() {
                     if let Some(a) = ssrc_owner.get(ssrc).copied() {
                         if rxs[a].is_none() { ssrc_owner.remove(ssrc); }
-                        else if !(got.len() == 1 && got[0].0 == a) {
+                        else if !(got.len() == 1 && got[0].0 == a) && !(filled[a] && got.is_empty()) {
                             fails.push(("demux:registered-ssrc-not-delivered-to-its-listener".into(), format!("step {i}: SSRC {ssrc} was registered for open listener {a}, packet went to {:?}", got.iter().map(|g| g.0).collect::<Vec<_>>())));
                         }
                     }
@@ -221,7 +273,7 @@ pub async fn dexec(ops: &[DOp]) -> DOut {
                 // receiver that registered for NO section must still reach it (no over-dropping)
                 if got.is_empty() && rid_named.is_none() && live_mid_owner.is_none() {
                     if let (Some(m), Some((_, a))) = (&mid_val, pre.by_ssrc.iter().find(|e| e.0 == *ssrc)) {
-                        if !mid_owner.contains_key(m) && *a < NL && rxs[*a].is_some() && section[*a].is_none() && rid_val.as_ref().map(|r| !rid_owner.contains_key(r)).unwrap_or(true) {
+                        if !mid_owner.contains_key(m) && *a < NL && rxs[*a].is_some() && !filled[*a] && section[*a].is_none() && rid_val.as_ref().map(|r| !rid_owner.contains_key(r)).unwrap_or(true) {
                             fails.push(("demux:unregistered-mid-blocks-ssrc-bound-receiver".into(), format!("step {i}: MID {m:?} is registered by nobody, SSRC {ssrc} is bound to open listener {a} (no section), packet dropped")));
                         }
                     }
@@ -248,7 +300,11 @@ pub async fn dexec(ops: &[DOp]) -> DOut {
                     let via_provisional = !by_ext && !known_ssrc && !(claimants == 1 && pts_of[*l].contains(pt));
                     if via_provisional {
                         let open_provisional = (0..NL).filter(|o| rxs[*o].is_some() && prov_of[*o]).count();
-                        if !prov_of[*l] {
+                        if claimants == 1 {
+                            // exactly ONE open listener registered this payload type and it is not the receiver: the packet WAS
+                            // identified by an unambiguous payload type and went elsewhere
+                            fails.push(("demux:unique-pt-owner-bypassed".into(), format!("step {i}: pt {pt} is registered by exactly one open listener, packet handed to {l}")));
+                        } else if !prov_of[*l] {
                             let sig = if claimants >= 2 { "demux:ambiguous-payload-type-delivered" } else { "demux:unidentified-packet-delivered" };
                             fails.push((sig.into(), format!("step {i}: pt {pt} registered by {claimants} open listeners, handed to {l}, which is not a provisional listener")));
                         } else if open_provisional > 1 {
@@ -300,7 +356,7 @@ pub async fn dexec(ops: &[DOp]) -> DOut {
 
 async fn demit(run: &mut Run, ops: &[DOp]) {
     let out = dexec(ops).await;
-    let input = ops.iter().map(dop_text).collect::<Vec<_>>().join(" ");
+    let input = case_text(ops);
     run.case("demux", &input, &out.lines.join(" "), out.delivered > 0);
     if out.delivered > 0 { run.count("demux_cases_with_delivery"); }
     if out.routed_by_ext > 0 { run.count("demux_cases_routed_packet_with_mid"); }
@@ -369,6 +425,8 @@ fn rand_dop(rng: &mut Rng) -> DOp {
         40..=42 => DOp::RidExt(*rng.pick(&[0u8, 4, 4, 5, 20])),
         43..=46 => DOp::MidExt(*rng.pick(&[0u8, 3, 3, 5, 20])),
         47..=48 => DOp::Clear,
+        49..=50 => DOp::Fill(l),
+        51..=52 => DOp::Drain(l),
         _ => {
             let ssrc = if rng.chance(9, 10) { *rng.pick(&S) } else { rng.next() as u32 };
             let pt = *rng.pick(&[96u8, 97, 98, 99, 0, 127]);
@@ -468,7 +526,10 @@ pub async fn bexec(net: &Net, c: &BCfg, pkts: &[BPkt]) -> BOut {
     for i in 1..3 { if !net.poll(i).is_empty() { unstable = true; } }
     let mut tokens = vec![];
     let mut known: HashSet<u32> = HashSet::new();
+    // long cases: empty the capture sockets every 64 packets (the kernel's receive buffer holds only a few hundred datagrams)
+    let mut raw: [Vec<Vec<u8>>; 3] = Default::default();
     for (i, p) in pkts.iter().enumerate() {
+        if i > 0 && i % 64 == 0 { for ci in 1..3 { raw[ci].extend(net.drain(ci)); } }
         if c.hold > 0 && i == c.hold { dst_a.start_srtp(super::c14::session(10)); }
         if c.reinstall > 0 && i == c.reinstall { install(); known.clear(); tokens.push("reset".into()); }
         let mut h = RtpHeader::new(p.pt, p.seq, p.ts, p.ssrc);
@@ -496,7 +557,9 @@ pub async fn bexec(net: &Net, c: &BCfg, pkts: &[BPkt]) -> BOut {
             let (k, sa) = super::c14::keyset(10, 0);
             Some(rustrtc::srtp::SrtpSession::new(rustrtc::srtp::SrtpProfile::Aes128Sha1_80, rustrtc::srtp::SrtpKeyingMaterial::new(k.clone(), sa.clone()), rustrtc::srtp::SrtpKeyingMaterial::new(k, sa)).unwrap())
         } else { None };
-        for b in net.drain(ci) {
+        let mut all = std::mem::take(&mut raw[ci]);
+        all.extend(net.drain(ci));
+        for b in all {
             let b = match dec.as_mut() {
                 Some(d) => match rustrtc::srtp::SrtpPacket::parse(bytes::BytesMut::from(&b[..])).ok().and_then(|sp| d.unprotect_rtp(sp).ok()).and_then(|p| p.marshal().ok()) {
                     Some(pt) => pt,
@@ -676,6 +739,23 @@ pub fn run(args: &Args) {
             }
         }
         run.count_n(&format!("demux_exhaustive_len_le{maxlen}"), n_ex);
+        // ---- demux (1b): full channels — every pool subset × which receiver's channel is full × every pair of packets, the
+        //      first arriving while the channel is full, the second after it was drained
+        let mut n_full = 0u64;
+        for subset in 0..(1usize << NPOOL) {
+            for fl in 0..2usize {
+                let mut pre = vec![DOp::MidExt(3), DOp::RidExt(4)];
+                for k in 0..NPOOL { if subset & (1 << k) != 0 { pre.push(pool_item(k)); } }
+                pre.push(DOp::Fill(fl));
+                for a in 0..NPKT { for b in 0..NPKT {
+                    let mut ops = pre.clone();
+                    ops.push(alpha_pkt(a)); ops.push(DOp::Drain(fl)); ops.push(alpha_pkt(b));
+                    demit(&mut run, &ops).await;
+                    n_full += 1;
+                } }
+            }
+        }
+        run.count_n("demux_full_channel_pairs", n_full);
         // ---- demux (2): random op sequences (re-registration, pruning, clear, closed listeners, ext ids,
         //      two-byte headers, malformed blocks, non-UTF-8)
         let mut rng = Rng::new(args.seed);
@@ -699,7 +779,7 @@ pub fn run(args: &Args) {
             let mut next_ssrc = 1000u32;
             for _ in 0..n {
                 match rng.below(20) {
-                    0 => ops.push(DOp::Close(rng.below(3) as usize)),
+                    0 => ops.push(if rng.chance(1, 2) { DOp::Close(rng.below(3) as usize) } else if rng.chance(1, 2) { DOp::Fill(rng.below(3) as usize) } else { DOp::Drain(rng.below(3) as usize) }),
                     1 => { ops.push(DOp::Ssrc(next_ssrc, rng.below(4) as usize)); next_ssrc += 1; }
                     2 | 3 => { // a MID-less packet of an SSRC seen earlier: finds its binding, stale or not
                         let s = 1000 + rng.below((next_ssrc - 1000).max(1) as u64) as u32;
@@ -768,6 +848,17 @@ pub fn run(args: &Args) {
                     3 => Some((0xBEDEu16, vec![0x57, b'0', 0, 0])), 4 => Some((0xBEDEu16, vec![0x1F, 0, 0, 0])), 5 => Some((0xBEDEu16, vec![0x30, b'7', 0x2F, 1])), _ => None };
                 pkts.push(BPkt { ssrc: [0x100, 0x200, 0xFFFF_FFFF][s], pt: *rng.pick(&[0u8, 0, 0, 101, 97, 8]), seq: j as u16, ts: cur[s], marker: rng.chance(1, 10), ext });
             }
+            // many concurrent sources: in 1 of 25 cases a burst of 260..320 packets, each of a FRESH SSRC, arrives in the
+            // middle — the watched sources' numbering, SSRC and timestamp mapping must not notice ("independently for every
+            // concurrent source stream")
+            if rng.chance(1, 25) && pkts.len() >= 2 {
+                let at = rng.range(1, pkts.len() as u64 - 1) as usize;
+                let nburst = rng.range(260, 320) as usize;
+                let tail = pkts.split_off(at);
+                for k in 0..nburst { pkts.push(BPkt { ssrc: 0x0100_0000 + k as u32, pt: 0, seq: k as u16, ts: 1000 * k as u32, marker: false, ext: None }); }
+                pkts.extend(tail);
+                run.count("bridge_cases_with_source_burst");
+            }
             bemit(&mut run, &net, &cfg, &pkts).await;
         }
         run.count_n("bridge_random_sequences", nb);
@@ -822,6 +913,7 @@ fn parse_dop(t: &str) -> DOp {
         "P" => DOp::Pts(if f[1] == "-" { vec![] } else { f[1].split('.').map(|x| x.parse().unwrap()).collect() }, n(2) as usize),
         "p" => DOp::Pt(n(1) as u8, n(2) as usize), "v" => DOp::Prov(n(1) as usize), "x" => DOp::Close(n(1) as usize),
         "er" => DOp::RidExt(n(1) as u8), "em" => DOp::MidExt(n(1) as u8), "c" => DOp::Clear,
+        "f" => DOp::Fill(n(1) as usize), "u" => DOp::Drain(n(1) as usize),
         "k" => DOp::Pkt { ssrc: n(1) as u32, pt: n(2) as u8, ext: if f[3] == "-" { None } else { Some((n(3) as u16, crate::unhex(f[4]))) } },
         x => panic!("bad op {x}"),
     }
